@@ -52,6 +52,9 @@ type cliInv struct {
 	RootArg    string // "genuine" / "foreign": --root_cert names that file; "": no --root_cert, the root is fetched from the default URL
 	GetterRoot string // what the invocation's getter serves at the default root URL: genuine | foreign
 	Kind       string // endorsed | unendorsed (measurement of the attestation; irrelevant to verify)
+	// Endorsement: "" = the genuine endorsement file; "replayed" = a forgery: the genuine payload
+	// edited to list the unendorsed SNP measurement and MRTD, under the genuine file's signature.
+	Endorsement string
 }
 
 func (c cliInv) String() string {
@@ -63,7 +66,11 @@ func (c cliInv) String() string {
 	if c.Cmd != "verify" {
 		k = " " + c.Kind + " measurement,"
 	}
-	return fmt.Sprintf("`%s`%s %s", c.Cmd, k, root)
+	e := ""
+	if c.Endorsement != "" {
+		e = ", endorsement file = forgery replaying the genuine signature over an edited payload"
+	}
+	return fmt.Sprintf("`%s`%s %s%s", c.Cmd, k, root, e)
 }
 
 func (c cliInv) key() string {
@@ -75,7 +82,7 @@ func (c cliInv) key() string {
 	if c.RootArg != "" {
 		g = "-" // never consulted
 	}
-	return c.Cmd + "|" + c.RootArg + "|" + g + "|" + k
+	return c.Cmd + "|" + c.RootArg + "|" + g + "|" + k + "|" + c.Endorsement
 }
 
 // trustsOnlyForeign: the only root the invocation's own configuration trusts is not the issuer of
@@ -85,12 +92,13 @@ func (c cliInv) trustsOnlyForeign() bool {
 }
 
 func (c cliInv) mustReject() bool {
-	return c.trustsOnlyForeign() || (c.Cmd != "verify" && c.Kind == "unendorsed")
+	return c.trustsOnlyForeign() || (c.Cmd != "verify" && c.Kind == "unendorsed") || c.Endorsement != ""
 }
 
 type cliWorld struct {
 	genuinePEM, foreignPEM []byte
 	endorsement            []byte
+	replayed               []byte            // the forgery (see cliInv.Endorsement)
 	att                    map[string][]byte // kind -> serialized SNP attestation
 	quote                  map[string][]byte // kind -> TDX quote
 	// alone[key] = accept? of the invocation in a tree built and executed on its own before any
@@ -113,7 +121,19 @@ func newCLIWorld() (*cliWorld, error) {
 	w := &cliWorld{genuinePEM: pemCert(f.root), foreignPEM: pemCert(foreign), att: map[string][]byte{}, quote: map[string][]byte{}}
 	g := golden(map[uint32][]byte{4: measEndorsed4, 8: measEndorsed8})
 	g.Tdx = &epb.VMTdx{Svn: 1, Measurements: []*epb.VMTdx_Measurement{{RamGib: 16, Mrtd: cliMrtd}}}
-	w.endorsement, _ = proto.Marshal(pki.Endorse(g, f.signCert.Raw, pki.Key(1)))
+	genuine := pki.Endorse(g, f.signCert.Raw, pki.Key(1))
+	w.endorsement, _ = proto.Marshal(genuine)
+	edited := &epb.VMGoldenMeasurement{}
+	if err := proto.Unmarshal(genuine.SerializedUefiGolden, edited); err != nil {
+		return nil, err
+	}
+	edited.SevSnp.Measurements[4] = measBad
+	edited.Tdx.Measurements[0].Mrtd = cliMrtdBad
+	payload, err := proto.MarshalOptions{Deterministic: true}.Marshal(edited)
+	if err != nil {
+		return nil, err
+	}
+	w.replayed, _ = proto.Marshal(&epb.VMLaunchEndorsement{SerializedUefiGolden: payload, Signature: genuine.Signature})
 	for kind, meas := range map[string][]byte{"endorsed": measEndorsed4, "unendorsed": measBad} {
 		fs, err := attest.SnpFormats(attest.SnpAttestation(meas, nil))
 		if err != nil || fs["tpm"] == nil {
@@ -140,6 +160,9 @@ type cliTree struct {
 func (w *cliWorld) build(c cliInv) *cliTree {
 	files := map[string][]byte{"genuine.pem": w.genuinePEM, "foreign.pem": w.foreignPEM, "e.binarypb": w.endorsement,
 		"att.bin": w.att[c.Kind], "quote.bin": w.quote[c.Kind]}
+	if c.Endorsement == "replayed" {
+		files["e.binarypb"] = w.replayed
+	}
 	served := w.genuinePEM
 	if c.GetterRoot == "foreign" {
 		served = w.foreignPEM
@@ -182,7 +205,9 @@ func allCLIInvs() []cliInv {
 		for _, ra := range []string{"genuine", "foreign", ""} {
 			for _, gr := range []string{"genuine", "foreign"} {
 				for _, k := range []string{"endorsed", "unendorsed"} {
-					out = append(out, cliInv{Cmd: cmd, RootArg: ra, GetterRoot: gr, Kind: k})
+					for _, e := range []string{"", "replayed"} {
+						out = append(out, cliInv{Cmd: cmd, RootArg: ra, GetterRoot: gr, Kind: k, Endorsement: e})
+					}
 				}
 			}
 		}
@@ -190,20 +215,31 @@ func allCLIInvs() []cliInv {
 	return out
 }
 
-// computeAlone: every invocation in a tree built and executed on its own, those that must be
-// rejected first. A verdict the harness does not expect of the repository is not a re-entrancy
+// computeAlone: every invocation in a tree built and executed on its own: first those on the forged
+// endorsement file, then the others that must be rejected, then the rest. The invocations on the
+// forged file are run in a twin world (own certificates, signatures and forgery, used for nothing
+// else): no invocation has read the genuine file that forgery is made of. A verdict the harness does not expect of the repository is not a re-entrancy
 // matter: it is noted and counted as inconclusive, and the absolute rule is then off for it.
 func (w *cliWorld) computeAlone(name string) {
 	w.alone = map[string]bool{}
-	for _, wantReject := range []bool{true, false} {
+	twin, err := newCLIWorld()
+	if err != nil {
+		panic("harness: " + err.Error())
+	}
+	for pass := 0; pass < 3; pass++ {
+		wantReject := pass < 2
 		for _, c := range allCLIInvs() {
-			if c.mustReject() != wantReject {
+			if c.mustReject() != wantReject || (c.Endorsement != "") != (pass == 0) {
 				continue
 			}
 			if _, done := w.alone[c.key()]; done {
 				continue
 			}
-			acc := w.build(c).run() == nil
+			in := w
+			if pass == 0 {
+				in = twin
+			}
+			acc := in.build(c).run() == nil
 			w.alone[c.key()] = acc
 			if acc == wantReject {
 				ev.Class(name, "inconclusive/isolated-verdict-not-as-expected")
@@ -223,6 +259,9 @@ func (w *cliWorld) judgeCLI(t ev.TB, c cliInv, got error, history string) bool {
 	case got == nil && c.trustsOnlyForeign() && !alone:
 		ev.Violation(t, "C09/cli/untrusted-root-accepted-with-other-invocations", "%s: %s ACCEPTED although the only root its own arguments and backend name is not the issuer of the endorsement's signing certificate (alone in a fresh tree: reject)", history, c)
 		return false
+	case got == nil && c.Endorsement != "" && !alone:
+		ev.Violation(t, "C09/cli/forgery-replaying-parts-of-a-genuine-endorsement-accepted", "%s: %s ACCEPTED although its endorsement file is a forgery (the genuine signature over an edited payload); alone in a fresh tree: reject", history, c)
+		return false
 	case (got == nil) != alone:
 		ev.Violation(t, "C09/cli/result-depends-on-other-invocations", "%s: %s got %s (%v) but %s in a tree built and executed on its own", history, c, okStr(got), got, accStr(alone))
 		return false
@@ -235,7 +274,7 @@ func TestCLIInvocationsIndependent(t *testing.T) {
 		t.Skip()
 	}
 	const name = "cli/coexisting-invocations"
-	ev.Rule(name, "2-3 command trees from gcetcbendorsement/cmd.VerifMakeRoot, each with its own backend (in-memory files genuine.pem, foreign.pem, the endorsement, attestation and quote; a getter serving the genuine or a foreign root at gcetcbendorsement.DefaultRootURL; fixed clock); per tree drawn: command {sev validate, verify, tdx validate} (endorsement always by --endorsement), --root_cert {genuine.pem, foreign.pem, absent -> default URL}, measurement {endorsed, unendorsed}; drawn history of events {build tree i, execute tree i} with every tree built before it is executed and executed once or twice with the same arguments (shapes: all built then executed in some order / construction of one tree between construction and execution of another / strictly one after another); oracle: every execution's accept/reject equals the same invocation in a tree built and executed on its own before two trees ever coexisted in the process, and again on its own after the history; an invocation whose own configuration trusts only a foreign root rejects; non-trivial = two trees with different effective roots coexist (one built before the other executed) and at least one execution is accepted and one rejected; distinct = (invocations, history)")
+	ev.Rule(name, "2-3 command trees from gcetcbendorsement/cmd.VerifMakeRoot, each with its own backend (in-memory files genuine.pem, foreign.pem, the endorsement, attestation and quote; a getter serving the genuine or a foreign root at gcetcbendorsement.DefaultRootURL; fixed clock); per tree drawn: command {sev validate, verify, tdx validate} (endorsement always by --endorsement), --root_cert {genuine.pem, foreign.pem, absent -> default URL}, measurement {endorsed, unendorsed}, endorsement file {genuine; in one of five trees a forgery: the genuine payload edited to list the unendorsed SNP measurement and MRTD under the genuine file's signature}; drawn history of events {build tree i, execute tree i} with every tree built before it is executed and executed once or twice with the same arguments (shapes: all built then executed in some order / construction of one tree between construction and execution of another / strictly one after another); oracle: every execution's accept/reject equals the same invocation in a tree built and executed on its own before two trees ever coexisted in the process, and again on its own after the history; an invocation whose own configuration trusts only a foreign root rejects; an invocation on the forged file rejects (key cli/forgery-replaying-parts-of-a-genuine-endorsement-accepted; classes forgery/<command>/after-an-accepted-invocation-on-the-genuine-file count those executed after another tree accepted the genuine file); non-trivial = two trees with different effective roots coexist (one built before the other executed) and at least one execution is accepted and one rejected; distinct = (invocations, history)")
 	w, err := newCLIWorld()
 	if err != nil {
 		ev.Class(name, "inconclusive/fixture")
@@ -255,6 +294,10 @@ func TestCLIInvocationsIndependent(t *testing.T) {
 				GetterRoot: rapid.SampledFrom([]string{"genuine", "foreign", "foreign"}).Draw(rt, "served"),
 				Kind:       rapid.SampledFrom([]string{"endorsed", "endorsed", "endorsed", "unendorsed"}).Draw(rt, "kind"),
 			}
+			if rapid.IntRange(0, 4).Draw(rt, "forged_endorsement_file") == 0 {
+				invs[i].Endorsement = "replayed"
+				invs[i].Kind = rapid.SampledFrom([]string{"unendorsed", "unendorsed", "endorsed"}).Draw(rt, "kind_with_forgery")
+			}
 			runsLeft[i] = rapid.SampledFrom([]int{1, 1, 2}).Draw(rt, "runs")
 		}
 		shape := rapid.SampledFrom([]string{"build-all-first", "build-all-first", "free", "free", "one-after-another"}).Draw(rt, "shape")
@@ -262,7 +305,7 @@ func TestCLIInvocationsIndependent(t *testing.T) {
 		trees := make([]*cliTree, n)
 		built := make([]bool, n)
 		var hist []string
-		coexist, sawAcc, sawRej := false, false, false
+		coexist, sawAcc, sawRej, sawGenuineAcc := false, false, false, false
 		for {
 			var enabled []int // 2*i build, 2*i+1 execute
 			for i := 0; i < n; i++ {
@@ -320,6 +363,14 @@ func TestCLIInvocationsIndependent(t *testing.T) {
 			}
 			sawAcc = sawAcc || got == nil
 			sawRej = sawRej || got != nil
+			if invs[i].Endorsement != "" {
+				if sawGenuineAcc {
+					ev.Class(name, "forgery/"+invs[i].Cmd+"/after-an-accepted-invocation-on-the-genuine-file")
+				} else {
+					ev.Class(name, "forgery/"+invs[i].Cmd+"/no-accepted-invocation-before")
+				}
+			}
+			sawGenuineAcc = sawGenuineAcc || (got == nil && invs[i].Endorsement == "")
 		}
 		// afterwards every invocation alone again
 		for i, c := range invs {
@@ -354,7 +405,7 @@ func TestCLIInvocationsIndependent(t *testing.T) {
 // and then executed concurrently, each by its own goroutine.
 func TestRaceFreeRunningCLI(t *testing.T) {
 	const name = "race/cli-concurrent-invocations"
-	ev.Rule(name, "binary built with -race; 6 command trees with different invocations (commands, --root_cert genuine/foreign/absent, served root, measurement), built one after another, then executed concurrently by one goroutine each, several rounds; oracle: every execution equals the invocation alone in a fresh tree computed beforehand, an invocation trusting only a foreign root rejects, and the race detector reports nothing; one case per (round, tree); non-trivial = all (the executions of a round are started together); distinct = (round, invocation)")
+	ev.Rule(name, "binary built with -race; 7 command trees with different invocations (commands, --root_cert genuine/foreign/absent, served root, measurement; one on a forged endorsement file replaying the genuine signature over an edited payload), built one after another, then executed concurrently by one goroutine each, several rounds; oracle: every execution equals the invocation alone in a fresh tree computed beforehand, an invocation trusting only a foreign root rejects, and the race detector reports nothing; one case per (round, tree); non-trivial = all (the executions of a round are started together); distinct = (round, invocation)")
 	if os.Getenv("VERIF_RACE") != "1" {
 		t.Skip("runs in the -race binary")
 	}
@@ -372,6 +423,7 @@ func TestRaceFreeRunningCLI(t *testing.T) {
 		{Cmd: "verify", RootArg: "", GetterRoot: "genuine", Kind: "endorsed"},
 		{Cmd: "tdx-validate", RootArg: "genuine", GetterRoot: "foreign", Kind: "endorsed"},
 		{Cmd: "sev-validate", RootArg: "", GetterRoot: "genuine", Kind: "unendorsed"},
+		{Cmd: "sev-validate", RootArg: "genuine", GetterRoot: "foreign", Kind: "unendorsed", Endorsement: "replayed"},
 	}
 	rounds := ev.Scale(25, 600)
 	for r := 0; r < rounds; r++ {
@@ -393,7 +445,7 @@ func TestRaceFreeRunningCLI(t *testing.T) {
 		close(start)
 		wg.Wait()
 		for i, c := range invs {
-			if !w.judgeCLI(t, c, res[i], fmt.Sprintf("round %d, 6 trees executed concurrently, tree %d", r, i)) {
+			if !w.judgeCLI(t, c, res[i], fmt.Sprintf("round %d, %d trees executed concurrently, tree %d", r, len(invs), i)) {
 				return
 			}
 			ev.Case(name, true, fmt.Sprintf("%d|%s", r, c.key()), c.Cmd, func() any { return map[string]any{"invocation": c.String(), "round": r} })
